@@ -43,6 +43,22 @@ pub fn ticks() -> u64 {
     CALLBACKS.with(|c| c.get())
 }
 
+/// CPU time consumed by the calling thread, in microseconds. Unlike wall-clock time it does not
+/// depend on how busy the machine is, so it can serve as a (coarse) budget for loops that neither
+/// read nor call back.
+pub fn thread_cpu_us() -> u64 {
+    let mut ts = libc::timespec {
+        tv_sec: 0,
+        tv_nsec: 0,
+    };
+    // SAFETY: plain syscall wrapper writing into a local struct
+    let rc = unsafe { libc::clock_gettime(libc::CLOCK_THREAD_CPUTIME_ID, &mut ts) };
+    if rc != 0 {
+        return 0;
+    }
+    ts.tv_sec as u64 * 1_000_000 + ts.tv_nsec as u64 / 1000
+}
+
 pub static LAST_GLOBAL: std::sync::Mutex<Option<String>> = std::sync::Mutex::new(None);
 
 pub fn install_hook() {
